@@ -4,6 +4,9 @@ patch=$1; shift
 cd /verif
 case "$patch" in /*) ;; *) patch="/verif/$patch";; esac
 git -C /repo apply "$patch" || { echo "patch does not apply"; exit 2; }
+# whatever happens (a closed pipe included), the tree is restored and the generated models brought back to it
+trap 'git -C /repo checkout -- . ; python3 /verif/tools/rs2v/main.py /repo/src /verif/coq/gen >/dev/null 2>&1' EXIT
+trap 'exit 1' PIPE INT TERM
 for c in "$@"; do
   echo "== $c"
   bin/check $c quick 2>/dev/null | grep -E "^(VIOLATION|KNOWN-FINDING)" | cut -c1-160 | head -5
